@@ -105,8 +105,18 @@ def compile_all(jobs, nworkers=None, hashseed="0", timeout=300, extra_env=None):
 
 
 # ----------------------------------------------------------------------------- TLC
+TLA_LIB = [TLA]   # a run snapshots tla/ into its work directory so that concurrent edits cannot disturb it
+
+
+def snapshot_tla(wd):
+    dst = os.path.join(wd, "tla")
+    shutil.copytree(TLA, dst, ignore=shutil.ignore_patterns("stub"))
+    TLA_LIB[0] = dst
+    return dst
+
+
 def java_cmd(xmx="3g"):
-    return ["java", "-XX:+UseSerialGC", "-Xss64m", "-Xmx" + xmx, "-DTLA-Library=" + TLA,
+    return ["java", "-XX:+UseSerialGC", "-Xss64m", "-Xmx" + xmx, "-DTLA-Library=" + TLA_LIB[0],
             "-cp", TLA_JAR + ":" + CM_JAR, "tlc2.TLC"]
 
 
